@@ -435,6 +435,57 @@ fn timing_families() -> Vec<(String, usize, f64)> {
     out
 }
 
+/// One generated case from raw dice (fuzz target): returns (derive, item, message, signature) on an internal failure or
+/// when two expansions of the same input differ.
+pub fn fuzz_one(dice: Vec<u16>) -> Option<(String, String, String, Option<String>)> {
+    let mut d = Dice::new(dice);
+    let with_attr: Vec<Derive> = Derive::all().filter(|d| d.info().attr.is_some()).collect();
+    let c = match d.pick(4) {
+        0 => {
+            let item = gen_item(&mut d, None);
+            Case { derive: Derive(d.pick(dm::DERIVES.len())).name().to_string(), item }
+        }
+        1 => {
+            let l = literal_adversarial(&mut d);
+            let v = literal_items(&l, &mut d);
+            let k = d.pick(v.len());
+            v[k].clone()
+        }
+        _ => {
+            let der = with_attr[d.pick(with_attr.len())];
+            let name = der.info().attr.unwrap();
+            let dn = der.name();
+            let f = move |d: &mut Dice, pos: usize| -> Option<String> {
+                if d.chance([55, 35, 35][pos]) {
+                    Some(attr_body(dn, d))
+                } else {
+                    None
+                }
+            };
+            let item = gen_item(&mut d, Some((name, &f)));
+            Case { derive: dn.to_string(), item }
+        }
+    };
+    match eval_case(&c) {
+        Ok((_, Some(p))) => {
+            let loc = format!("{}:{}", p.file.rsplit("impl/src/").next().unwrap_or(&p.file), p.line);
+            let v = json!({"derive": c.derive, "item": c.item, "panic_msg": p.msg, "panic_file": p.file, "panic_line": p.line, "loc": loc});
+            Some((c.derive.clone(), c.item.clone(), format!("panic at {loc}: {}", p.msg), sig_for(&v)))
+        }
+        Ok((kind, None)) if kind == "ok" => {
+            // C19(1): a second expansion gives the same tokens
+            let d1 = Derive::by_name(&c.derive)?;
+            let item: syn::DeriveInput = syn::parse_str(&c.item).ok()?;
+            let (a, b) = (dm::expand(d1, &item), dm::expand(d1, &item));
+            match (a.ok_tokens(), b.ok_tokens()) {
+                (Some(x), Some(y)) if x.to_string() != y.to_string() => Some((c.derive, c.item, "two expansions differ".into(), None)),
+                _ => None,
+            }
+        }
+        _ => None,
+    }
+}
+
 pub fn timing_main() -> i32 {
     use std::io::Write;
     for (f, n, s) in timing_families() {
